@@ -56,6 +56,7 @@ type ChainReq struct {
 	Flush   bool   `json:"flush,omitempty"`
 	Early   bool   `json:"early_close,omitempty"`
 	AddSvc  bool   `json:"add_service_afterwards,omitempty"`
+	WFail   int    `json:"client_gone_at_write,omitempty"` // k>0: the client's writer fails from underlying write #k-1 on
 
 	payload []byte
 	res     [2]*ChainRes // 0: simulated run, 1: sequential twin
@@ -589,15 +590,16 @@ type chainKnobs struct {
 	maxPayload   int
 	filterWrites bool
 	early        bool
+	wfaults      int // permille of requests whose client goes away (writer starts failing)
 }
 
-func genFilters(tp *sim.Tape, k chainKnobs, n int) []FSpec {
+func genFilters(tp *sim.Tape, k chainKnobs, max int) []FSpec {
 	var fs []FSpec
 	kinds := []string{"pass"}
 	if k.richFilters {
 		kinds = []string{"pass", "attr", "short", "newreq", "newresp", "mw-pass", "mw-wrap", "mw-short", "pass", "attr"}
 	}
-	for i := 0; i < n; i++ {
+	tp.Repeat(0, max, 550, func(int) {
 		f := FSpec{Kind: kinds[tp.G(len(kinds))]}
 		if k.filterWrites {
 			if tp.Chance(400) {
@@ -608,7 +610,7 @@ func genFilters(tp *sim.Tape, k chainKnobs, n int) []FSpec {
 			}
 		}
 		fs = append(fs, f)
-	}
+	})
 	return fs
 }
 
@@ -643,12 +645,12 @@ func genChainCfg(tp *sim.Tape, k chainKnobs) *ChainCfg {
 	if k.maxCF > 0 {
 		ncf = k.maxCF
 	}
-	cfg.CF = genFilters(tp, k, tp.G(ncf+1))
-	cfg.SF = genFilters(tp, k, tp.G(k.maxFilters+1))
-	cfg.RF = genFilters(tp, k, tp.G(k.maxFilters+1))
+	cfg.CF = genFilters(tp, k, ncf)
+	cfg.SF = genFilters(tp, k, k.maxFilters)
+	cfg.RF = genFilters(tp, k, k.maxFilters)
 	if k.twoServices {
-		cfg.SF2 = genFilters(tp, k, tp.G(k.maxFilters+1))
-		cfg.RF2 = genFilters(tp, k, tp.G(k.maxFilters+1))
+		cfg.SF2 = genFilters(tp, k, k.maxFilters)
+		cfg.RF2 = genFilters(tp, k, k.maxFilters)
 	}
 	cfg.Preempt = []int{300, 100, 500, 30}[tp.G(4)]
 	tagFilters(cfg.CF, "c")
@@ -695,6 +697,9 @@ func genChainReq(tp *sim.Tape, cfg *ChainCfg, k chainKnobs, id int) *ChainReq {
 		if len(pts) > 0 {
 			r.PanicAt = pts[tp.G(len(pts))]
 		}
+	}
+	if tp.Chance(k.wfaults) {
+		r.WFail = 1 + tp.G(4)
 	}
 	if r.Early {
 		// a handler that closes the response writer itself is only meaningful if nothing is written afterwards
@@ -761,6 +766,9 @@ func (cr *chainRun) serve(t *sim.Task, r *ChainReq, variant int) {
 		w.H.Set("Content-Encoding", r.PreCE)
 	}
 	res.W = w
+	if variant == 0 && r.WFail > 0 {
+		w.FaultMode, w.FailAt = sim.WFaultFail, r.WFail-1
+	}
 	var rw http.ResponseWriter = w
 	if cr.env.cfg.Flusher {
 		rw = sim.SimFlushWriter{SimWriter: w}
@@ -784,6 +792,9 @@ func (cr *chainRun) serve(t *sim.Task, r *ChainReq, variant int) {
 			c.ServeHTTP(rw, hr)
 		}
 	}()
+	if w.Fired > 0 && t != nil {
+		t.Count("fault-wfail")
+	}
 }
 
 // twin serves every request sequentially on the twin (encoding off everywhere): the bytes the
